@@ -1,5 +1,9 @@
-/- line-protocol driver for C03: `drv_c03 gen|exec|mrun|scope` reads operations on stdin, prints one canonical line per
+/- line-protocol driver for C03: `drv_c03 gen|exec|mrun|scope|fun` reads operations on stdin, prints one canonical line per
    operation.  Core Lean only (nothing imported here may import Mathlib, or the executable will not link). -/
 import ChibiVerif.Driver.CtlCmd
+import ChibiVerif.Driver.C03FunCmd
 
-def main (args : List String) : IO UInt32 := ChibiVerif.Driver.CtlCmd.main args
+def main (args : List String) : IO UInt32 :=
+  match args with
+  | "fun" :: _ => ChibiVerif.Driver.C03Fun.main args
+  | _ => ChibiVerif.Driver.CtlCmd.main args
